@@ -15,19 +15,30 @@ COORD_ASSUME = [
 ]
 
 PROPS = {
+    'C01': dict(engine='coord', module='Kvass.Props.C01', assumptions=COORD_ASSUME,
+                partial='none: Spec.C01.ok (the monitored predicate) is proved of Coord.cycle for every schedule; crash-freedom under max-process-series != 0 and non-negative series'),
+    'C05': dict(engine='coord', module='Kvass.Props.C05', assumptions=COORD_ASSUME + ['status lists have one entry per hash (JSON maps)'],
+                partial='proved: minWait = 3 and Spec.C05.removal for every schedule; Spec.C05.moveStep (source marked in-transfer, destination normal, in the same cycle) is monitored on implementation and model outcomes but not yet a theorem; the multi-cycle no-gap statement belongs to the closed-loop model (C03/C06)'),
+    'C07': dict(engine='coord', module='Kvass.Props.C07', assumptions=COORD_ASSUME,
+                partial='proved: Spec.C07.bounds for every request of the cycle, and no-shrink when max-idle-time = 0; keepsNeeded (scale-down never removes a needed shard) and no-shrink under need-space are monitored on implementation and model outcomes, theorem pending'),
+    'C08': dict(engine='coord', module='Kvass.Props.C08', assumptions=COORD_ASSUME,
+                partial='proved: leftAlone, noNeedlessPush, noUpdates for every schedule; noSecondAssign and dstInSync (destination of a move is in sync) are monitored on implementation and model outcomes, theorem pending'),
     'C04': dict(engine='coord', module='Kvass.Props.C04', assumptions=COORD_ASSUME,
                 partial='theorem is stated on the ghost placement log (running load at placement time); the observable form Spec.C04.ok is monitored on every implementation outcome and on every enumerated model outcome'),
 }
 
 LEVEL_TEXT = {
+    'C01': 'Machine-checked theorems (Lean 4): the monitored predicate Spec.C01.ok holds of the observable outcome of Coord.cycle for every schedule (map orders, random picks), every seriesWithRate and every input; the model calls decision expressions regenerated from the Go source on every run and is validated against the real coordinator on every run.',
+    'C05': 'Machine-checked theorems (Lean 4): the hand-over threshold extracted from the source equals the documented 3, and no in-sync shard loses a discovered target unless it and a remaining holder have scraped it 3 times (Spec.C05.removal) for every schedule and input; move-step clause monitored.',
+    'C07': 'Machine-checked theorems (Lean 4): every ChangeScale argument of a cycle lies in [min,max]; no request below the current count when max-idle-time = 0; remaining clauses monitored on the real coordinator and on all enumerated model outcomes.',
+    'C08': 'Machine-checked theorems (Lean 4): the exact request sequence an unready / unreachable / out-of-sync shard receives, no needless config push, no target or extra-config update unless in sync, for every schedule and input; destination clauses monitored.',
     'C04': 'Machine-checked theorem (Lean 4) that every placement of Coord.cycle respects both limits on the running load, for all schedules/inputs; the model calls decision expressions regenerated from rebalance.go on every run, and each run validates the model against the real coordinator and monitors the observable form of the property on it.',
 }
 
 # properties not (yet) claimed; kept current as checks are added
 NOT_APPLICABLE = {
-    'C01': 'check under construction in this round (model exists; theorem pending)',
-    'C02': 'check under construction', 'C03': 'check under construction', 'C05': 'check under construction',
-    'C06': 'check under construction', 'C07': 'check under construction', 'C08': 'check under construction',
+    'C02': 'check under construction', 'C03': 'check under construction', 
+    'C06': 'check under construction', 
     'C09': 'check under construction', 'C10': 'check under construction', 'C11': 'check under construction',
     'C12': 'check under construction', 'C13': 'check under construction', 'C14': 'check under construction',
     'C15': 'check under construction', 'C16': 'check under construction', 'C17': 'check under construction',
